@@ -29,8 +29,21 @@
    A nested `def` reads outer variables by their status at the definition site
    (Guppy captures by value there); its body is explored as if called at once.
 
+   Dead code (statements after one that always jumps) is modelled as the code treats it
+   (cfg/builder.py visit_stmts + the pruning pass of CFGBuilder.build): the statement
+   after a jumping statement S is entered along a never-taken ("dummy") edge from the
+   block in which S started, i.e. with the environment S itself started with (action
+   DeadEdge, sets `dead`).  The analyses follow dummy edges (include_unreachable), so
+   reads in dead code must be defined along these edges.  Jumps from unreachable code
+   back into reachable code are pruned: a dead path stops where it would enter a program
+   point that live paths reach (the join after an `if`, a live loop's head or tail).
+   Frames remember whether the construct they belong to was entered live (`lv`).
+   Inside a nested function `dead` is relative to the nested function's own CFG.
+
    Output (verdict extraction): every reachable state that is about to READ a
-   variable prints the fact [id, v, l, st] (variable, line of the read, status).
+   variable prints the fact [id, v, l, st, d] (variable, line of the read, status, and
+   d = "live" | "dead" (read sits in dead code of main, or in a nested function defined in
+   dead code) | "inner" (dead code of a nested function)).
    The union S(id, v, l) of statuses over all paths is classified by `Kinds`
    (module ScopingVerdict evaluates it with TLC):
      "never"  : read reachable, variable unassigned on every path reaching it
@@ -50,12 +63,17 @@ CONSTANTS Vars            \* tracked variable names
 
 Progs == JsonDeserialize(IOEnv.VERIF_IN)
 
-VARIABLES pid, stack, env
-vars == <<pid, stack, env>>
+VARIABLES pid, stack, env, dead
+vars == <<pid, stack, env, dead>>
 
 Types == {"int", "bool"}
 NoEnv == [v \in Vars |-> "undef"]
-Frame(t, li, i, sv) == [t |-> t, li |-> li, i |-> i, sv |-> sv]
+\* t: "main" | "arm" (of an if) | "body" (of a loop) | "fbody" (of a nested function): statement
+\*    list li at position i;  "loop": active loop statement lists[li][i];  "fn": nested function
+\*    being explored, sv/dd = environment and `dead` of the definition site.
+\* lv: the construct (if / loop) was entered by a live path
+Frame(t, li, i, sv, lv, dd) == [t |-> t, li |-> li, i |-> i, sv |-> sv, lv |-> lv, dd |-> dd]
+IsSeq(t) == t \in {"main", "arm", "body", "fbody"}
 L == Progs[pid].lists
 
 \* names assigned anywhere in statement list li: the locals of a function body
@@ -69,11 +87,25 @@ AssignedIn(li) ==
                 [] OTHER         -> {}
             : j \in 1..Len(L[li]) }
 
+\* the CFG builder's view: visiting statement s yields no open block (visit_* returns None);
+\* a list yields none iff its last statement yields none
+RECURSIVE BJumps(_)
+BJumpsList(li) == Len(L[li]) > 0 /\ BJumps(L[li][Len(L[li])])
+BJumps(s) == CASE s.k \in {"break", "continue", "ret"} -> TRUE
+               [] s.k = "if" -> BJumpsList(s.a) /\ BJumpsList(s.b)
+               [] OTHER -> FALSE
+\* can control really fall off the end of list li (entered live)?
+RECURSIVE Falls(_)
+FallsStmt(s) == CASE s.k \in {"break", "continue", "ret"} -> FALSE
+                  [] s.k = "if" -> Falls(s.a) \/ Falls(s.b)
+                  [] OTHER -> TRUE
+Falls(li) == \A j \in 1..Len(L[li]) : FallsStmt(L[li][j])
+
 Depth == Len(stack)
 Top == stack[Depth]
 Pop(st) == SubSeq(st, 1, Len(st) - 1)
 Advance(st) == [st EXCEPT ![Len(st)].i = @ + 1]
-AtStmt == Depth > 0 /\ Top.t = "seq" /\ Top.i <= Len(L[Top.li])
+AtStmt == Depth > 0 /\ IsSeq(Top.t) /\ Top.i <= Len(L[Top.li])
 Cur == L[Top.li][Top.i]
 AtLoop == Depth > 0 /\ Top.t = "loop"
 Loop == L[Top.li][Top.i]
@@ -82,73 +114,94 @@ Innermost(t) == LET J == {j \in 1..Depth : stack[j].t = t}
                 IN IF J = {} THEN 0 ELSE CHOOSE j \in J : \A k \in J : k <= j
 
 Init == /\ pid \in 1..Len(Progs)
-        /\ stack = <<Frame("seq", 1, 1, NoEnv)>>
+        /\ stack = <<Frame("main", 1, 1, NoEnv, TRUE, FALSE)>>
         /\ env = NoEnv
+        /\ dead = FALSE
 
 Assign == /\ AtStmt /\ Cur.k = "asg"
           /\ env' = [env EXCEPT ![Cur.v] = Cur.t]
           /\ stack' = Advance(stack)
-          /\ UNCHANGED pid
+          /\ UNCHANGED <<pid, dead>>
 
 Copy == /\ AtStmt /\ Cur.k = "cpy"
         /\ env' = [env EXCEPT ![Cur.v] = IF env[Cur.s] \in Types THEN env[Cur.s] ELSE "any"]
         /\ stack' = Advance(stack)
-        /\ UNCHANGED pid
+        /\ UNCHANGED <<pid, dead>>
 
 Use == /\ AtStmt /\ Cur.k = "use"
        /\ stack' = Advance(stack)
-       /\ UNCHANGED <<pid, env>>
+       /\ UNCHANGED <<pid, env, dead>>
 
 \* the condition value is ignored: both branches are paths
 IfThen == /\ AtStmt /\ Cur.k = "if"
-          /\ stack' = Append(Advance(stack), Frame("seq", Cur.a, 1, NoEnv))
-          /\ UNCHANGED <<pid, env>>
+          /\ stack' = Append(Advance(stack), Frame("arm", Cur.a, 1, NoEnv, ~dead, FALSE))
+          /\ UNCHANGED <<pid, env, dead>>
 IfElse == /\ AtStmt /\ Cur.k = "if"
-          /\ stack' = Append(Advance(stack), Frame("seq", Cur.b, 1, NoEnv))
-          /\ UNCHANGED <<pid, env>>
+          /\ stack' = Append(Advance(stack), Frame("arm", Cur.b, 1, NoEnv, ~dead, FALSE))
+          /\ UNCHANGED <<pid, env, dead>>
 
 LoopStart == /\ AtStmt /\ Cur.k \in {"while", "for"}
-             /\ stack' = Append(Advance(stack), Frame("loop", Top.li, Top.i, NoEnv))
-             /\ UNCHANGED <<pid, env>>
+             /\ stack' = Append(Advance(stack), Frame("loop", Top.li, Top.i, NoEnv, ~dead, FALSE))
+             /\ UNCHANGED <<pid, env, dead>>
 \* loop head: (while) the condition is evaluated, then body or exit;
 \* (for) exit happens before the target is assigned, otherwise target := int
 LoopEnter == /\ AtLoop
-             /\ stack' = Append(stack, Frame("seq", Loop.a, 1, NoEnv))
+             /\ stack' = Append(stack, Frame("body", Loop.a, 1, NoEnv, ~dead, FALSE))
              /\ env' = IF Loop.k = "for" /\ Loop.v \in Vars
                        THEN [env EXCEPT ![Loop.v] = "int"] ELSE env
-             /\ UNCHANGED pid
+             /\ UNCHANGED <<pid, dead>>
 LoopExit == /\ AtLoop
             /\ stack' = Pop(stack)
-            /\ UNCHANGED <<pid, env>>
+            /\ UNCHANGED <<pid, env, dead>>
+\* a jump out of dead code into a live loop's head / tail is pruned from the CFG: the path ends
 Break == /\ AtStmt /\ Cur.k = "break"
-         /\ stack' = SubSeq(stack, 1, Innermost("loop") - 1)
-         /\ UNCHANGED <<pid, env>>
+         /\ LET j == Innermost("loop") IN
+            stack' = IF dead /\ stack[j].lv THEN <<>> ELSE SubSeq(stack, 1, j - 1)
+         /\ UNCHANGED <<pid, env, dead>>
 Continue == /\ AtStmt /\ Cur.k = "continue"
-            /\ stack' = SubSeq(stack, 1, Innermost("loop"))
-            /\ UNCHANGED <<pid, env>>
+            /\ LET j == Innermost("loop") IN
+               stack' = IF dead /\ stack[j].lv THEN <<>> ELSE SubSeq(stack, 1, j)
+            /\ UNCHANGED <<pid, env, dead>>
 \* return leaves the innermost function: the nested one (outer env restored) or the program
 Return == /\ AtStmt /\ Cur.k = "ret"
           /\ LET j == Innermost("fn") IN
-             IF j = 0 THEN stack' = <<>> /\ env' = env
-             ELSE stack' = SubSeq(stack, 1, j - 1) /\ env' = stack[j].sv
+             IF j = 0 THEN stack' = <<>> /\ env' = env /\ dead' = dead
+             ELSE stack' = SubSeq(stack, 1, j - 1) /\ env' = stack[j].sv /\ dead' = stack[j].dd
           /\ UNCHANGED pid
-EndSeq == /\ Depth > 0 /\ Top.t = "seq" /\ Top.i > Len(L[Top.li])
-          /\ stack' = Pop(stack)
-          /\ UNCHANGED <<pid, env>>
+\* never-taken edge into the code that follows a jumping statement: it leaves the block in which
+\* that statement started, so the dead code sees the environment the statement started with
+DeadEdge == /\ AtStmt /\ BJumps(Cur) /\ Top.i < Len(L[Top.li])
+            /\ stack' = Advance(stack)
+            /\ dead' = TRUE
+            /\ UNCHANGED <<pid, env>>
+\* end of a statement list.  A dead path stops where it would flow into a point live paths reach:
+\* the join after an `if` that was entered live and that some arm really falls out of, or the
+\* head of a loop that was entered live (those CFG edges are pruned)
+EndSeq == /\ Depth > 0 /\ IsSeq(Top.t) /\ Top.i > Len(L[Top.li])
+          /\ LET intoLive ==
+                   CASE Top.t = "arm"  -> LET par == stack[Depth - 1]
+                                              s == L[par.li][par.i - 1]
+                                          IN Top.lv /\ (Falls(s.a) \/ Falls(s.b))
+                     [] Top.t = "body" -> stack[Depth - 1].lv
+                     [] OTHER -> FALSE
+             IN stack' = IF dead /\ intoLive THEN <<>> ELSE Pop(stack)
+          /\ UNCHANGED <<pid, env, dead>>
 
 \* nested function definition: names assigned in the body are its locals; all other
-\* names are read from the environment at the definition site
+\* names are read from the environment at the definition site; the body has its own CFG
 DefFun == /\ AtStmt /\ Cur.k = "def"
-          /\ stack' = Advance(stack) \o <<Frame("fn", 0, 0, env), Frame("seq", Cur.a, 1, NoEnv)>>
+          /\ stack' = Advance(stack) \o <<Frame("fn", 0, 0, env, TRUE, dead), Frame("fbody", Cur.a, 1, NoEnv, TRUE, FALSE)>>
           /\ env' = [v \in Vars |-> IF v \in AssignedIn(Cur.a) THEN "unbound" ELSE env[v]]
+          /\ dead' = FALSE
           /\ UNCHANGED pid
 EndFun == /\ Depth > 0 /\ Top.t = "fn"
           /\ stack' = Pop(stack)
           /\ env' = Top.sv
+          /\ dead' = Top.dd
           /\ UNCHANGED pid
 
 Next == \/ Assign \/ Copy \/ Use \/ IfThen \/ IfElse \/ LoopStart \/ LoopEnter \/ LoopExit
-        \/ Break \/ Continue \/ Return \/ EndSeq \/ DefFun \/ EndFun
+        \/ Break \/ Continue \/ Return \/ DeadEdge \/ EndSeq \/ DefFun \/ EndFun
 Spec == Init /\ [][Next]_vars
 
 \* ---- observation: which variable (if any) is read in this state -----------------
@@ -159,19 +212,25 @@ ReadsVar == IF AtStmt THEN
                   [] OTHER -> <<>>
             ELSE IF AtLoop /\ Loop.k = "while" /\ Loop.c \in Vars THEN <<Loop.c, Loop.l>>
             ELSE <<>>
+InFun == Innermost("fn") > 0
+Deadness == IF InFun /\ dead THEN "inner"
+            ELSE IF dead \/ (InFun /\ stack[Innermost("fn")].dd) THEN "dead" ELSE "live"
 
 \* always-true invariants that report facts
 EmitFacts == ReadsVar # <<>> =>
-    PrintT(ToJson([id |-> Progs[pid].id, v |-> ReadsVar[1], l |-> ReadsVar[2], st |-> env[ReadsVar[1]]]))
+    PrintT(ToJson([id |-> Progs[pid].id, v |-> ReadsVar[1], l |-> ReadsVar[2], st |-> env[ReadsVar[1]], d |-> Deadness]))
 EmitDone == stack = <<>> => PrintT(ToJson([done |-> Progs[pid].id]))
 
 \* ---- sanity of the model itself -------------------------------------------------
 TypeOK == /\ pid \in 1..Len(Progs)
+          /\ dead \in BOOLEAN
           /\ \A v \in Vars : env[v] \in {"undef", "int", "bool", "unbound", "any"}
 \* break/continue always find their loop inside the current function
 JumpsWellFormed == (AtStmt /\ Cur.k \in {"break", "continue"}) => Innermost("loop") > Innermost("fn")
 \* "unbound" exists only while a nested function body is explored
 UnboundOnlyInFun == (\E v \in Vars : env[v] = "unbound") => Innermost("fn") > 0
+\* a live path is never inside a construct that was entered dead
+LiveInsideLive == ~dead => \A j \in (Innermost("fn") + 1)..Depth : stack[j].t \in {"arm", "body", "loop"} => stack[j].lv
 
 \* ---- classification of the statuses observed at one read over all paths ----------
 \* ("any" is an assignment too: Guppy counts `vb = va` as assigning vb even if va is undefined)
